@@ -14,17 +14,13 @@
         under `iter > 1`, `reset_to_prev_iterate` only after an insufficient-progress verdict (which
         needs `iter > 1`), and by then `save_prev_iterate` of THIS solve has written them.  They only
         show in the private `prev_*` copies inside the first pass's `info` snapshot (`RecEqv`);
-   (ii) two stale buffers through a multiplication by zero:
-        `kktsystem.workx` as `0 · workx` (`solve_constant_rhs`: `workx.axpby(-1, q, 0)`), and
-        `residuals.Px`   as `Px · 0`    (`residuals.update`: `symv(Px, x, 1, 0)` starts with `y.scale(0)`).
-        (`residuals.rx_inf` is NOT of this kind: `gemv` with `b = 0` fills with zero — needs only
-        `0 == 0`, hypothesis `hbeq`.)  Over a field both products are `0` and the buffers are dead
-        (`full_solve_stale_field`).  At `Float`: `0 · v` is `NaN` for a non-finite `v`, and `+0` / `−0`
-        according to the sign bit of a finite `v`; in `a·x + 0·v` the signed zero is absorbed unless
-        `a·x` is itself a zero, where `(−0) + (−0) = −0` but `(−0) + (+0) = +0`.  So a finite stale
-        buffer can only show as the sign of a zero entry of `−q` resp. `P·x`; the theorems below state
-        the sufficient condition "same `0 · v` entrywise" (`zmulL`, `zmulR`) — for a freshly built
-        solver (buffers `+0`) that is: the stale entries are finite with sign bit `+`;
+   (ii) NOTHING through a multiplication by zero any more.  Until /repo 1706c1f two stale buffers were
+        read that way: `kktsystem.workx` as `0 · workx` (`solve_constant_rhs`: `workx.axpby(-1, q, 0)`)
+        and `residuals.Px` as `Px · 0` (`symv(Px, x, 1, 0)` started with `y.scale(0)`), so that a NaN left
+        by a broken solve poisoned the next one (KF-C03-resolve-after-nan) and a finite entry could flip
+        the sign of a zero.  Now `workx.scalarop_from(|q| -q, &data.q)` and `symv`'s `y.fill(0)` for
+        `b == 0` (as `gemv` always did; needs only `0 == 0`, hypothesis `hbeq`) overwrite them: both
+        buffers are dead (`workx` up to the length of `q`: `WorkxSized`);
   (iii) the stale ITERATE, only when `solve_initial_point` fails (`default_start` does not check its
         result and shifts whatever is in `variables` into the cone): hypothesis `InitPointOk`;
    (iv) the linear solver object through `update` / `setrhs`+`solve` only (`KktSim`): two objects that
@@ -53,8 +49,8 @@ variable {α : Type} [Add α] [Sub α] [Mul α] [Div α] [Neg α] [OfNat α 0] [
   [OfNat α 100] [OfNat α 1000] [LT α] [DecidableLT α] [LE α] [DecidableLE α] [BEq α] [FloatLike α]
 
 /-- [S] `C05.full_solve_reads_only`: **what `solve()` may read of the mutable state.**  Two solver
-objects related by `Stale` (same data, same vector lengths and cone shapes, the same `0·workx` and
-`Px·0`, linear-solver objects related by a simulation `(Bw, Bs)`) whose `solution` objects have the
+objects related by `Stale` (same data, same vector lengths and cone shapes, linear-solver objects
+related by a simulation `(Bw, Bs)`) whose `solution` objects have the
 same lengths, and such that `solve_initial_point` succeeds (or the incoming iterates agree): `solve()`
 fails with the same error on both, or succeeds on both with the same `solution`, the same trajectory
 (every pass record: iterate, `μ, σ, α`, the nine `info` figures, verdicts, `α_aff`, … — up to the private
@@ -88,86 +84,112 @@ theorem full_solve_info_block_dead (hbeq : ((0 : α) == 0) = true) (st : Solver.
     RelM SolveObs (S.solve st) (({ S with st := withInfo S.st i a b c } : Solver α).solve st) :=
   solve_rel hbeq qdldl_kktSim st
     { data := rfl, variables := VarsShape.of_eq rfl, residuals := ResidShape.of_eq rfl,
-      kktsystem := ⟨QW.rfl' _, rfl, rfl, rfl, rfl, rfl, rfl, SameFrom.rfl' _ _⟩,
+      kktsystem := ⟨QW.rfl' _, rfl, rfl, rfl, rfl, SameFrom.rfl' _ _, rfl, SameFrom.rfl' _ _⟩,
       cones := ConesShape.rfl' _, stepLhs := StepShape.of_eq rfl, stepRhs := StepShape.of_eq rfl,
       prevVars := VarsShape.of_eq rfl }
     (SolShape.rfl' _ _) (Or.inr ⟨rfl, rfl, rfl⟩)
 
-/-- [S] `C05.full_solve_stale_qdldl`: the same for the concrete linear solver of the model (QDLDL):
-given the structural facts (`SameShape`, `WellSized`: lengths and shapes, which `solve()` preserves),
-the two `0 · stale` conditions of (ii), (iii), and the hypothesis `QW` of (iv) on the two KKT solver
-objects, `solve()` cannot tell the two solver objects apart. -/
+/-- [S] `C05.full_solve_stale`: for the concrete linear solver of the model (QDLDL): given the structural
+facts (`SameShape`, `WellSized`, `WorkxSized`: lengths and shapes, which `solve()` preserves), (iii), and
+the hypothesis `QW` of (iv) on the two KKT solver objects, `solve()` cannot tell the two solver objects
+apart — whatever is in ANY of their mutable buffers (NaN, ±∞ included). -/
+theorem full_solve_stale (hbeq : ((0 : α) == 0) = true) (st : Solver.Settings α) {S S' : Solver α}
+    (hsh : SameShape S.st S'.st) (hw : WellSized S.st) (hq : WorkxSized S.st)
+    (hK : QW S.st.kktsystem.kktsolver S'.st.kktsystem.kktsolver)
+    (hsol : SolShape ((presolveMap S.st.data).map (fun m => m.keep.size)) S.solution S'.solution)
+    (hinit : InitPointOk (resetInfo S.st) st ∨ VarsXSZ S.st.variables S'.st.variables) :
+    RelM SolveObs (S.solve st) (S'.solve st) :=
+  solve_rel hbeq qdldl_kktSim st (Stale.of_sameShape hsh hw hq hK) hsol hinit
+
+/-- [S] `C05.full_solve_stale_qdldl` (superseded by `full_solve_stale`; stated for the code before /repo
+1706c1f, where `0·workx` and `Px·0` were read: the hypotheses `hPx`, `hwx` are no longer needed). -/
 theorem full_solve_stale_qdldl (hbeq : ((0 : α) == 0) = true) (st : Solver.Settings α) {S S' : Solver α}
-    (hsh : SameShape S.st S'.st) (hw : WellSized S.st)
+    (hsh : SameShape S.st S'.st) (hw : WellSized S.st) (hq : WorkxSized S.st)
     (hK : QW S.st.kktsystem.kktsolver S'.st.kktsystem.kktsolver)
-    (hPx : zmulR S.st.residuals.Px = zmulR S'.st.residuals.Px)
-    (hwx : zmulL S.st.kktsystem.workx = zmulL S'.st.kktsystem.workx)
+    (_hPx : zmulR S.st.residuals.Px = zmulR S'.st.residuals.Px)
+    (_hwx : zmulL S.st.kktsystem.workx = zmulL S'.st.kktsystem.workx)
     (hsol : SolShape ((presolveMap S.st.data).map (fun m => m.keep.size)) S.solution S'.solution)
     (hinit : InitPointOk (resetInfo S.st) st ∨ VarsXSZ S.st.variables S'.st.variables) :
     RelM SolveObs (S.solve st) (S'.solve st) :=
-  solve_rel hbeq qdldl_kktSim st (Stale.of_sameShape hsh hw hK hPx hwx) hsol hinit
+  full_solve_stale hbeq st hsh hw hq hK hsol hinit
 
-/-- [F] `C05.full_solve_stale_field`: over a ring/field (`0·a = 0 = a·0`) the two buffers of (ii) are
-dead as well: only lengths and shapes, (iii) and (iv) remain. -/
-theorem full_solve_stale_field (hbeq : ((0 : α) == 0) = true) (h0l : ∀ a : α, 0 * a = 0) (h0r : ∀ a : α, a * 0 = 0)
+/-- [S] `C05.full_solve_stale_field` (superseded by `full_solve_stale`: the ring laws `0·a = 0 = a·0` are
+no longer needed, the statement holds for every scalar type). -/
+theorem full_solve_stale_field (hbeq : ((0 : α) == 0) = true) (_h0l : ∀ a : α, 0 * a = 0) (_h0r : ∀ a : α, a * 0 = 0)
     (st : Solver.Settings α) {S S' : Solver α} (hsh : SameShape S.st S'.st) (hw : WellSized S.st)
-    (hK : QW S.st.kktsystem.kktsolver S'.st.kktsystem.kktsolver)
+    (hq : WorkxSized S.st) (hK : QW S.st.kktsystem.kktsolver S'.st.kktsystem.kktsolver)
     (hsol : SolShape ((presolveMap S.st.data).map (fun m => m.keep.size)) S.solution S'.solution)
     (hinit : InitPointOk (resetInfo S.st) st ∨ VarsXSZ S.st.variables S'.st.variables) :
     RelM SolveObs (S.solve st) (S'.solve st) :=
-  full_solve_stale_qdldl hbeq st hsh hw hK (zmulR_of_size h0r hsh.Px) (zmulL_of_size h0l hsh.workx) hsol hinit
+  full_solve_stale hbeq st hsh hw hq hK hsol hinit
 
-/-- [S] `C05.full_solve_idempotent_finite_partial`: **the same solver solved twice.**  If the first
-`solve()` on a solver object returned `r1`, then the second `solve()` on the object it left returns
-the same observable result — the same `solution` (status, `x, s, z`, objectives, iterations,
-residuals), the same trajectory pass by pass, the same final iterate and `info` figures — provided
-  (ii)  the first solve left "finite state" in the two buffers that are read through a multiplication
-        by zero, in the exact form: `Px·0` and `0·workx` are entrywise the same before and after (at
-        `Float`: the entries left there are finite and carry the sign bit of the ones that were there
-        before — `+0` in a new solver; a sign flip can only turn a `+0` entry of `−q` / `P·x` into `−0`);
-  (iii) `solve_initial_point` succeeds (otherwise the iterate of the first solve is the start of the second);
+/-- [S] `C05.full_solve_idempotent_finite`: **the same solver solved twice** (for the code since /repo
+1706c1f).  If the first `solve()` on a solver object returned `r1` — with whatever figures: a
+`NumericalError` with a NaN iterate included —, then the second `solve()` on the object it left returns
+the same observable result: the same `solution` (status, `x, s, z`, objectives, iterations, residuals),
+the same trajectory pass by pass, the same final iterate and `info` figures, provided
+  (iii) `solve_initial_point` succeeds (`default_start` does not check its result: otherwise the iterate
+        of the first solve is the start of the second — unchanged by the fix);
   (iv)  `QW`: `KKTSolver::update` rewrites every numeric entry of the linear solver object that the
         first solve changed.
-`ConesOk`, `WellSized` and `hsz` are structural facts about the object (every object built by
-`DefaultSolver::new` has them: `solverNew_frame`; `solve()` preserves them, so the theorem chains to
-a third, fourth … call).
-FULL STATEMENT (`full_solve_idempotent_finite`), not proved: the same without hypothesis (iv).  (iv) is
-a statement about `KKTSolver::update` alone (C11 `update_*`: every non-`P`/`A` entry of the KKT matrix
-and of the engine's permuted copy is rewritten; C12 `refactor_eq_fresh`: `L, D, D⁻¹` do not depend on
-the previous factors); its derivation needs the well-formedness invariants of the QDLDL workspace
-carried through a whole solve.  It is checked on the implementation by the `update-does-not-forget`
-oracle of channel `meta.repeat`. -/
-theorem full_solve_idempotent_finite_partial (hbeq : ((0 : α) == 0) = true) (st : Solver.Settings α) {S : Solver α}
+No finiteness condition is left: every mutable buffer is dead.  `ConesOk`, `WellSized`, `WorkxSized` and
+`hsz` are structural facts about the object (every object built by `DefaultSolver::new` has them:
+`full_new_solver_is_well_formed`; `solve()` preserves them, so the theorem chains to a third, fourth …
+call).
+NOT PROVED: the same without hypothesis (iv).  (iv) is a statement about `KKTSolver::update` alone (C11
+`update_*`: every non-`P`/`A` entry of the KKT matrix and of the engine's permuted copy is rewritten;
+C12 `refactor_eq_fresh`: `L, D, D⁻¹` do not depend on the previous factors); its derivation needs the
+well-formedness invariants of the QDLDL workspace carried through a whole solve.  It is checked on
+the implementation by the `update-does-not-forget` oracle of channel `meta.repeat`. -/
+theorem full_solve_idempotent_finite (hbeq : ((0 : α) == 0) = true) (st : Solver.Settings α) {S : Solver α}
     {r1 : SolveResult α} (h1 : S.solve st = .ok r1) (hc : ConesOk S.st.cones) (hw : WellSized S.st)
+    (hq : WorkxSized S.st)
     (hsz : ∀ n, (presolveMap S.st.data).map (fun m => m.keep.size) = some n →
       S.solution.s.size ≤ n ∧ S.solution.z.size ≤ n)
-    (hPx : zmulR S.st.residuals.Px = zmulR r1.S.st.residuals.Px)
-    (hwx : zmulL S.st.kktsystem.workx = zmulL r1.S.st.kktsystem.workx)
+    (hinit : InitPointOk (resetInfo S.st) st)
+    (hK : QW S.st.kktsystem.kktsolver r1.S.st.kktsystem.kktsolver) :
+    (∃ r2, r1.S.solve st = .ok r2 ∧ SolveObs r1 r2)
+      ∧ ConesOk r1.S.st.cones ∧ WellSized r1.S.st ∧ WorkxSized r1.S.st :=
+  ⟨solve_twice_obs hbeq st h1 hc hw hq hsz hK hinit, solve_conesOk h1 hc, solve_wellSized h1 hc hw,
+    solve_workxSized h1 hc hq⟩
+
+/-- [S] `C05.full_solve_idempotent_finite_partial` (superseded by `full_solve_idempotent_finite`; stated
+for the code before /repo 1706c1f, where condition (ii) "the first solve left the same `0·v` zeros in
+`Px` and `workx`" was needed: `hPx`, `hwx` are no longer used). -/
+theorem full_solve_idempotent_finite_partial (hbeq : ((0 : α) == 0) = true) (st : Solver.Settings α) {S : Solver α}
+    {r1 : SolveResult α} (h1 : S.solve st = .ok r1) (hc : ConesOk S.st.cones) (hw : WellSized S.st)
+    (hq : WorkxSized S.st)
+    (hsz : ∀ n, (presolveMap S.st.data).map (fun m => m.keep.size) = some n →
+      S.solution.s.size ≤ n ∧ S.solution.z.size ≤ n)
+    (_hPx : zmulR S.st.residuals.Px = zmulR r1.S.st.residuals.Px)
+    (_hwx : zmulL S.st.kktsystem.workx = zmulL r1.S.st.kktsystem.workx)
     (hinit : InitPointOk (resetInfo S.st) st)
     (hK : QW S.st.kktsystem.kktsolver r1.S.st.kktsystem.kktsolver) :
     (∃ r2, r1.S.solve st = .ok r2 ∧ SolveObs r1 r2)
       ∧ ConesOk r1.S.st.cones ∧ WellSized r1.S.st :=
-  ⟨solve_twice_obs hbeq st h1 hc hw hsz hK hPx hwx hinit, solve_conesOk h1 hc, solve_wellSized h1 hc hw⟩
+  have h := full_solve_idempotent_finite hbeq st h1 hc hw hq hsz hinit hK
+  ⟨h.1, h.2.1, h.2.2.1⟩
 
-/-- [F] `C05.full_solve_idempotent_field_partial`: over a ring/field (`0·a = 0 = a·0`) condition (ii) is
-void: the second solve gives the result of the first given (iii) and (iv) only. -/
-theorem full_solve_idempotent_field_partial (hbeq : ((0 : α) == 0) = true) (h0l : ∀ a : α, 0 * a = 0)
-    (h0r : ∀ a : α, a * 0 = 0) (st : Solver.Settings α) {S : Solver α}
+/-- [S] `C05.full_solve_idempotent_field_partial` (superseded by `full_solve_idempotent_finite`: the ring
+laws are no longer needed). -/
+theorem full_solve_idempotent_field_partial (hbeq : ((0 : α) == 0) = true) (_h0l : ∀ a : α, 0 * a = 0)
+    (_h0r : ∀ a : α, a * 0 = 0) (st : Solver.Settings α) {S : Solver α}
     {r1 : SolveResult α} (h1 : S.solve st = .ok r1) (hc : ConesOk S.st.cones) (hw : WellSized S.st)
+    (hq : WorkxSized S.st)
     (hsz : ∀ n, (presolveMap S.st.data).map (fun m => m.keep.size) = some n →
       S.solution.s.size ≤ n ∧ S.solution.z.size ≤ n)
     (hinit : InitPointOk (resetInfo S.st) st)
     (hK : QW S.st.kktsystem.kktsolver r1.S.st.kktsystem.kktsolver) :
     ∃ r2, r1.S.solve st = .ok r2 ∧ SolveObs r1 r2 :=
-  have hsh := solve_sameShape h1 hc
-  solve_twice_obs hbeq st h1 hc hw hsz hK (zmulR_of_size h0r hsh.Px) (zmulL_of_size h0l hsh.workx) hinit
+  (full_solve_idempotent_finite hbeq st h1 hc hw hq hsz hinit hK).1
 
-/-- [S] `C05.full_new_solver_is_well_formed`: the structural hypotheses of the two theorems above hold
+/-- [S] `C05.full_new_solver_is_well_formed`: the structural hypotheses of the theorems above hold
 for every solver object built by `DefaultSolver::new`. -/
 theorem full_new_solver_is_well_formed {P : Csc α} {q : Array α} {A : Csc α} {b : Array α}
     {cones : List (ConeT α)} {st : Solver.Settings α} {perm : Array Nat} {S : Solver α}
-    (h : Solver.new P q A b cones st perm = .ok S) : ConesOk S.st.cones ∧ WellSized S.st :=
-  solverNew_frame h
+    (h : Solver.new P q A b cones st perm = .ok S) :
+    ConesOk S.st.cones ∧ WellSized S.st ∧ WorkxSized S.st :=
+  ⟨(solverNew_frame h).1, (solverNew_frame h).2, solverNew_workxSized h⟩
 
 end stale
 
@@ -195,17 +217,18 @@ example (S : Solver Int) :
     ⟨fun c s h => h.update c s, fun h => h, qdldl_kktSim.solve⟩ (st 3) S _
     (QB.set _ (junk_size _ _) rfl rfl (junk_size _ _))
 
-/-- the hypotheses of `full_solve_idempotent_finite_partial` on the example: `DefaultSolver::new` succeeds
+/-- the hypotheses of `full_solve_idempotent_finite` on the example: `DefaultSolver::new` succeeds
 (`run3`), the object it builds is well formed, `solve_initial_point` succeeds on it, no presolver (so
 `hsz` is void); hypothesis (iv) `QW` holds between any two objects that differ in the content of the
 four work vectors (`QB.toQW`) — its instance "before / after a solve" is the fact that is not derived -/
 example {S : Solver Int} (h : newSolver 3 = .ok S) :
-    (ConesOk S.st.cones ∧ WellSized S.st) ∧ InitPointOk (resetInfo S.st) (st 3)
+    (ConesOk S.st.cones ∧ WellSized S.st ∧ WorkxSized S.st) ∧ InitPointOk (resetInfo S.st) (st 3)
       ∧ QW S.st.kktsystem.kktsolver { S.st.kktsystem.kktsolver with b := junk S.st.kktsystem.kktsolver.b 3 } :=
   ⟨full_new_solver_is_well_formed h, example_initPointOk h,
     (QB.set _ rfl (junk_size _ _) rfl rfl).toQW⟩
 
-/-- the scalar hypotheses of `full_solve_stale_field` / `full_solve_idempotent_field_partial` at `Int` -/
+/-- the scalar hypothesis `hbeq` (and the superseded ring laws of `full_solve_stale_field` /
+`full_solve_idempotent_field_partial`) at `Int` -/
 example : (((0 : Int) == 0) = true) ∧ (∀ a : Int, 0 * a = 0) ∧ (∀ a : Int, a * 0 = 0) :=
   ⟨by decide, Int.zero_mul, Int.mul_zero⟩
 
